@@ -156,7 +156,9 @@ CHECKS["C04"] = {
     "level_text": "For N in 1..3 exchanges tagged with unique ids, every framing combination (request none/CL/chunked, response CL/chunked; fixed mixes for N=3), every chunking "
                   "drawn from {whole, mid first line, after first CRLF, one byte before the end} per message x {message boundary is / is not a chunk boundary}, and EVERY legal "
                   "interleaving of the two chunk sequences (no byte of response i before the last byte of request i) is executed; exactly N transactions, in order, each carrying "
-                  "request i, response header id i and response body id i; the pipelining indicator is compared with what the schedule implies.",
+                  "request i, response header id i and response body id i; the pipelining indicator is compared with what the schedule implies. "
+                  "CONNECT layer: CONNECT (accepted 2xx / refused 4xx, 5xx) followed by two requests and three responses under every cut pair and legal interleaving of the C16 workload: "
+                  "three transactions, transaction i carries request i and response i.",
     "level_note": "Freed variant: with auto-destroy and htp_connp_tx_freed() the connection's list no longer holds the transactions, pairing is judged from the records taken at "
                   "TRANSACTION_COMPLETE (request URI, X-Id response header, response body id). "
                   "The expected indicator is computed from the schedule alone (first byte of request j offered before the first byte of response j-1). Early responses (response overtaking "
@@ -168,7 +170,9 @@ CHECKS["C04"] = {
     "assumptions": ["IDS personality", "QUICK_START 2.2.1-2.2.8 hand-over as implemented in mc/hx_run.c"],
     "jobs": lambda tier: [J("cutmc", "plain", ["--mode", "pair"])] + ([J("cutmc", "asan", ["--mode", "pair", "--maxn", "2"])]) +
                          # the same workload with transactions destroyed on completion and htp_connp_tx_freed() after every 1 / 2 / 3 completed responses, N up to 4
-                         [J("cutmc", "plain", ["--mode", "pair", "--maxn", "4", "--freed", str(k)]) for k in (1, 2, 3)],
+                         [J("cutmc", "plain", ["--mode", "pair", "--maxn", "4", "--freed", str(k)]) for k in (1, 2, 3)] +
+                         # CONNECT (accepted / refused) followed by two requests, three responses: the C16 schedules judged by C04's pairing statement
+                         [J("cutmc", "plain", ["--mode", "tunnel"])],
 }
 
 
